@@ -1,4 +1,6 @@
 """C19 — script templates match what they describe; criteria select the right indices."""
+import zlib
+
 from .. import gen
 from ..ref import asm, ec, hashes, template, wire
 
@@ -16,7 +18,7 @@ ASSUMPTIONS = [
 NSHARDS = {"quick": 32, "thorough": 64}
 BUDGET_S = {"quick": 200, "thorough": 1800}
 MIN_HITS = {
-    'quick': {"pair": 3807, "len_constraint": 90, "sig_token": 160, "pubkey_token": 160, "pkh_token": 160, "self": 16852, "criteria": 10240, "expect_match": 1134, "expect_nomatch": 2600},
+    'quick': {"pair": 4895, "len_constraint": 90, "sig_token": 160, "pubkey_token": 160, "pkh_token": 160, "self": 16852, "criteria": 10240, "expect_match": 2187, "expect_nomatch": 2627},
     'thorough': {"pair": 675855, "len_constraint": 108, "mixed": 115194, "sig_token": 30720, "pubkey_token": 30720, "pkh_token": 30720, "self": 80192, "criteria": 1536000},
 }
 PSEUDO = {251, 252, 253, 254}
@@ -89,6 +91,28 @@ def cases(ctx):
             if not 1 <= len(data) <= 75:
                 continue
             yield {"k": "pair", "script": wire.detok([("push", data), ("op", 0xAC)]).hex(), "tmpl": "%s OP_CHECKSIG" % tokname, "tag": kind}
+        # the standard p2pkh unlock+lock shape with extraction order (below)
+        pass
+    # signatures of EVERY encoded size: r and s each with a DER integer length of 1..33 bytes (33 = top bit set, leading zero),
+    # with and without a trailing flag byte: pushes of 8..73 bytes
+    def der_int_of_len(D):
+        if D == 33:
+            return r.randrange(2**255, ec.N)
+        if D == 1:
+            return r.randrange(1, 128)
+        return r.randrange(2 ** (8 * (D - 1) - 1), 2 ** (8 * D - 1))
+
+    kk = 0
+    for Lr in range(1, 34):
+        for Ls in range(1, 34):
+            kk += 1
+            if kk % N != S:
+                continue
+            d = ec.der_encode(der_int_of_len(Lr), der_int_of_len(Ls))
+            for data in (d, d + bytes([r.choice(sorted(template.FLAGS))])):
+                if len(data) <= 75:
+                    yield {"k": "pair", "script": wire.detok([("push", data), ("op", 0xAC)]).hex(), "tmpl": "OP_SIG OP_CHECKSIG", "tag": "sig_size_grid"}
+    for i in range(800 if t else 10):
         # the standard p2pkh unlock+lock shape with extraction order
         sig, pub, pkh = rnd_sig(r, True), rnd_pub(r, True), gen.rbytes(r, 20)
         if len(sig) <= 75:
@@ -153,9 +177,9 @@ def cases(ctx):
             if mask & 1:
                 c["tmpl"] = r.choice(["OP_DUP OP_HASH160 OP_PUBKEYHASH OP_EQUALVERIFY OP_CHECKSIG", "OP_DUP OP_HASH160 %s OP_EQUALVERIFY OP_CHECKSIG" % pk.hex(), "OP_DATA OP_DATA=33", "OP_RETURN", "OP_DATA OP_DATA=33 OP_DUP OP_HASH160 OP_PUBKEYHASH OP_EQUALVERIFY OP_CHECKSIG"])
             if mask & 2:
-                c["exact"] = r.choice(vals)
+                c["exact"] = 0 if r.random() < 0.25 else r.choice(vals)
             if mask & 4:
-                c["min"] = r.choice(vals)
+                c["min"] = 0 if r.random() < 0.25 else r.choice(vals)
             if mask & 8:
                 c["max"] = r.choice(vals)
             c["order"] = r.sample(["tmpl", "exact", "min", "max"], 4)
@@ -181,7 +205,10 @@ def judge(ctx, case):
             ctx.note("typed token vs PUSHDATA-encoded element: no claim")
             return
         exp = template.match(toks, tm)
-        r = ctx.call({"op": "template", "script": case["script"], "tmpl": case["tmpl"]})
+        vi = zlib.crc32((case["script"] + case["tmpl"]).encode()) % 3 == 0
+        if vi:
+            ctx.hit("template_via_impl")
+        r = ctx.call({"op": "template", "script": case["script"], "tmpl": case["tmpl"], "via_impl": vi})
         ctx.ev()
         if "ok" not in r or "matches" not in r["ok"]:
             ctx.viol("template could not be parsed or applied", {"tmpl": case["tmpl"], "resp": str(r)[:200]})
@@ -241,21 +268,36 @@ def judge(ctx, case):
             ctx.viol("match_outputs returns the wrong indices (criteria fields present: %s)" % crit_names(case), {"got": str(o["outputs"])[:100], "exp": exp_out, "values": [x["value"] for x in tx["outs"]], "exact": ex, "min": mn, "max": mx})
         if o["output"].get("ok", "x") != (exp_out[0] if exp_out else None):
             ctx.viol("match_output does not return the first matching index", {"got": str(o["output"])[:100], "exp": exp_out[:1]})
-        # inputs: claim only when every input has a recorded value or no max-only subtlety applies
+        # inputs. An input WITHOUT a recorded value cannot satisfy an exact or a minimum bound (unknown is not zero); under a
+        # max-only bound there is no claim for that input (it is left out of the comparison).
         exts = case["ext"]
-        noclaim = any(e is None or "satoshis" not in e for e in exts) and (ex is not None or mn is not None or mx is not None)
-        if noclaim:
-            ctx.note("inputs without a recorded value under value criteria: no claim")
-            return
         exp_in = []
+        unknown = set()
         for i, (inp, e) in enumerate(zip(tx["ins"], exts)):
             sc = inp["script"] + (bytes.fromhex(e["locking"]) if e and "locking" in e else b"")
             v = e["satoshis"] if e and "satoshis" in e else None
-            if (tm is None or template.match(wire.tokenize(sc), tm) is not None) and (v is None or template.value_ok(v, ex, mn, mx)):
+            script_ok = tm is None or template.match(wire.tokenize(sc), tm) is not None
+            if v is None:
+                if ex is not None or mn is not None:
+                    ctx.hit("input_without_value_under_exact_or_min")
+                    if (ex == 0 and ex is not None) or (mn == 0 and mn is not None):
+                        ctx.hit("input_without_value_bound_zero")
+                    continue  # not selected
+                if mx is not None:
+                    unknown.add(i)
+                    continue
+                if script_ok:
+                    exp_in.append(i)
+            elif script_ok and template.value_ok(v, ex, mn, mx):
                 exp_in.append(i)
         ctx.ev()
-        if o["inputs"].get("ok") != exp_in:
-            ctx.viol("match_inputs returns the wrong indices (criteria fields present: %s)" % crit_names(case), {"got": str(o["inputs"])[:100], "exp": exp_in})
+        got_in = o["inputs"].get("ok")
+        if unknown:
+            ctx.note("inputs without a recorded value under max-only criteria: no claim for those inputs")
+        if not isinstance(got_in, list) or [i for i in got_in if i not in unknown] != exp_in:
+            ctx.viol("match_inputs returns the wrong indices (criteria fields present: %s%s)" % (crit_names(case), ", some inputs carry no recorded value" if any(e is None or "satoshis" not in e for e in exts) else ""), {"got": str(o["inputs"])[:100], "exp": exp_in, "ext": str(exts)[:300], "exact": ex, "min": mn, "max": mx})
+        if unknown:
+            return
         if o["input"].get("ok", "x") != (exp_in[0] if exp_in else None):
             ctx.viol("match_input does not return the first matching index", {"got": str(o["input"])[:100], "exp": exp_in[:1]})
 
